@@ -24,7 +24,31 @@ def mark(s):
         os.stat("/MARK/" + s)
     except OSError:
         pass
-for i, (key, val) in enumerate(prog["sets"]):
+import threading
+store = k["kvs"]
+for i, item in enumerate(prog["sets"]):
+    if item[0] == "||":
+        # a group of concurrent sets on one key through KeyValueStorage.set, released together by a barrier
+        members = item[1:]
+        key = members[0][0]
+        bar = threading.Barrier(len(members))
+        def setter(val):
+            obj = k[val]
+            bar.wait()
+            store.set(key, obj)
+        ths = [threading.Thread(target=setter, args=(val,)) for _, val in members]
+        mark(f"gbegin/{i}")
+        for t in ths: t.start()
+        for t in ths: t.join()
+        live = store.get(key)
+        vid = 0
+        for j, (_, val) in enumerate(members):
+            from klongpy.db.sys_fn_kvs import serialize_obj
+            if serialize_obj(k[val]) == serialize_obj(live):
+                vid = j + 1
+        mark(f"greturn/{i}/{vid}")
+        continue
+    key, val = item
     mark(f"begin/{i}")
     k(f'kvs,"{key}",,{val}')
     mark(f"return/{i}")
@@ -106,8 +130,8 @@ def to_events(calls, root, values_bytes):
             if m:
                 p = _unhex(m.group(1)).decode("utf8", "replace")
                 if p.startswith("/MARK/"):
-                    kind, idx = p[6:].split("/")
-                    events.append({"ev": "mark", "kind": kind, "i": int(idx)})
+                    parts = p[6:].split("/")
+                    events.append({"ev": "mark", "kind": parts[0], "i": int(parts[1]), "extra": parts[2:]})
             continue
         if ret in ("?",) or (ret.startswith("-") and call not in ()):
             continue
